@@ -1149,7 +1149,8 @@ def sun_compact(U, rtol=1e-12, atol=1e-12):
     n = U.shape[0]
     parameters = []
     global_phase = None
-    det = np.linalg.det(U)
+    # complex, so that the n-th root of a negative determinant (real orthogonal input) exists
+    det = complex(np.linalg.det(U))
 
     if n < 3:
         raise ValueError("Input matrix for decomposition must be at least 3x3.")
@@ -1157,7 +1158,7 @@ def sun_compact(U, rtol=1e-12, atol=1e-12):
         raise ValueError("The input matrix is not unitary.")
 
     # if Unitary, factorize into phase times Special Unitary
-    SU = U.copy()
+    SU = U.astype(complex)
     if not np.isclose(det, 1, rtol=rtol, atol=atol):
         SU *= det ** (-1 / n)
         global_phase = np.angle(det)
